@@ -3,6 +3,8 @@ import PprofVerif.Lemmas.LegacyCPUTotal
 import PprofVerif.Lemmas.LegacyCPUValues
 import PprofVerif.Model.Parse
 import PprofVerif.Lemmas.IdTables
+import PprofVerif.Lemmas.ComposeParseMerge
+import PprofVerif.Lemmas.ComposeCodec
 /-!
 # C02 — Parsing is total: an error or a valid profile for any bytes
 
@@ -18,9 +20,10 @@ Full statement of the property (DESIGN.md Appendix D): for all bytes `b`,
 text report of `p` do not crash.  Proved below: the protobuf path and the binary legacy CPU
 path never panic and terminate (the model functions are total and their fuel provably
 suffices); an accepted profile is valid, has aligned units and sorted label maps, and
-serializes without panic.  NOT proved here (harness only, see checks/C02.json): the text
-legacy parsers, gzip, Copy (needs C01's round-trip theorem), Compact (C03's model), the
-report printers, and wall-clock promptness.
+serializes without panic.  Composed with C01 and C03 (sections at the end of this file): an
+accepted profile can be Copied (given C01's size side condition on the re-encoding), Compacted
+and Merged, and stays valid.  NOT proved here (harness only, see checks/C02.json): the text
+legacy parsers, gzip, the report printers, and wall-clock promptness.
 -/
 namespace PV.Props.C02
 open PV PV.Wire PV.Codec PV.LegacyCPU PV.Parse
@@ -223,5 +226,137 @@ example : (match LegacyCPU.parseCPU
     [0,0,0,0, 3,0,0,0, 0,0,0,0, 10,0,0,0, 0,0,0,0,  2,0,0,0, 0xff,0xff,0xff,0xff] with
     | .ok none => true
     | _ => false) = true := by decide
+
+/-! ## composed with C01 (round trip) — a parser result can be Copied
+
+The statements the header lists as "NOT proved here … Copy (needs C01's round-trip theorem)".
+(C01's `parse_serialize` / `copy_eq_normalize` are used through their lemma-level twins in
+`Lemmas/ComposeCodec.lean`, so that this file does not import C01's Props file.)
+`Valid`, `unitsAligned`, `mapsSorted` of C01's `copy_eq_normalize` come from
+`parse_ok_valid_or_rejected`; its range hypothesis `InRange` is DERIVED for every parser output
+(`parse_ok_in_range`: the decoder only produces uint64/int64 values).  What stays explicit is
+C01's size side condition `EncSizes` on the re-encoded message (string table shorter than 2^63
+entries, every length-delimited body shorter than 2^64 bytes; `Codec.EncSizes_of_counts`
+discharges it from element counts below 2^56): it is a fact about the SIZE of the re-encoding,
+which the model does not bound by the size of the input. -/
+
+/-- `parseData b = ok p` unfolds to: `ParseUncompressed` returned `p` and `p` passed the gate. -/
+theorem parseData_ok_iff (b : Bytes) (p : Profile) :
+    parseData b = .ok p ↔ Codec.parseUncompressed b = .ok p ∧ p.Valid := Parse.parseData_ok_iff b p
+
+/-- Every integer of a profile returned by `ParseUncompressed` fits its Go type (ids, addresses
+uint64; values, lines, numeric label values, times int64): C01's `InRange`, for ALL bytes. -/
+theorem parse_ok_in_range (b : Bytes) (p : Profile) (h : Codec.parseUncompressed b = .ok p) :
+    Codec.InRange p := Codec.parseUncompressed_inRange b p h
+
+/-- **A parser result can be Copied.**  For any bytes `b` that `ParseData` accepts, `Copy` of the
+result does not panic: it returns the normalised profile (C01), which is again valid, aligned and
+key-sorted — provided the re-encoding meets the size side condition `EncSizes`. -/
+theorem parse_ok_copy_no_panic (b : Bytes) (p : Profile) (h : parseData b = .ok p)
+    (hz : ∀ x, Codec.preEncode p = .ok x → Codec.EncSizes x) :
+    Codec.copy p = .ok (Codec.Profile.normalize p) ∧ (∀ s, Codec.copy p ≠ .panic s) ∧
+    (Codec.Profile.normalize p).Valid ∧ (Codec.Profile.normalize p).unitsAligned = true ∧
+    (Codec.Profile.normalize p).mapsSorted = true := by
+  obtain ⟨hp, hv⟩ := (parseData_ok_iff b p).mp h
+  obtain ⟨ha, hs⟩ := parseUncompressed_ok b p hp
+  have hc := Codec.copy_normalize p hv ha hs (parse_ok_in_range b p hp) hz
+  obtain ⟨hv', ha', hs'⟩ := Codec.normalize_keeps_contract p hv ha hs
+  refine ⟨hc, ?_, hv', ha', hs'⟩
+  intro s hpan
+  rw [hc] at hpan
+  cases hpan
+
+/-- … and written and read back: `ParseData (Write p) = ok (normalize p)`, so a second
+parse/serialize generation is a fixpoint (reading (2) of C01, now for every accepted input). -/
+theorem parse_ok_reparse (b : Bytes) (p : Profile) (h : parseData b = .ok p)
+    (hz : ∀ x, Codec.preEncode p = .ok x → Codec.EncSizes x) :
+    ∃ b', Codec.serialize p = .ok b' ∧ parseData b' = .ok (Codec.Profile.normalize p) := by
+  obtain ⟨hp, hv⟩ := (parseData_ok_iff b p).mp h
+  obtain ⟨ha, hs⟩ := parseUncompressed_ok b p hp
+  obtain ⟨b', h1, h2⟩ := Codec.parse_serialize_normalize p hv ha hs (parse_ok_in_range b p hp) hz
+  exact ⟨b', h1, (parseData_ok_iff b' _).mpr ⟨h2, (Codec.normalize_keeps_contract p hv ha hs).1⟩⟩
+
+/-- what `ParseData` returns for `exampleBytes` -/
+def exampleParsed : Profile :=
+  { sampleType := [⟨[97], [98]⟩], defaultSampleType := [],
+    samples := [⟨[], [5], [], [([97], [7])], [([97], [[98]])]⟩],
+    mappings := [], locations := [], functions := [], comments := [], docURL := [], dropFrames := [],
+    keepFrames := [], timeNanos := 0, durationNanos := 0, periodType := some ⟨[], []⟩, period := 0 }
+
+-- non-vacuity: the example bytes are accepted, the re-encoding of the result meets the size
+-- condition, so `Copy` is `ok`
+example : parseData exampleBytes = .ok exampleParsed ∧
+    (∀ x, Codec.preEncode exampleParsed = .ok x → Codec.EncSizes x) ∧
+    Codec.copy exampleParsed = .ok (Codec.Profile.normalize exampleParsed) := by
+  have h1 : parseData exampleBytes = .ok exampleParsed := by decide
+  have h2 : ∀ x, Codec.preEncode exampleParsed = .ok x → Codec.EncSizes x := by
+    intro x hx
+    have hx' : x = (match Codec.preEncode exampleParsed with | .ok y => y | _ => default) := by rw [hx]
+    subst hx'
+    exact Codec.EncSizes_of_counts (by decide) (by decide) (by decide) (by decide) (by decide)
+  exact ⟨h1, h2, (parse_ok_copy_no_panic exampleBytes exampleParsed h1 h2).1⟩
+
+/-! ## composed with C03 (merge) — a parser result can be Compacted / Merged
+
+C03's theorems need `Valid` (the gate), `Typed` (values and numeric label values are int64 —
+DERIVED for parser outputs, it is part of `InRange`) and, for merging several profiles,
+compatibility with the first (which requires a `PeriodType`: every parser output has one,
+`postDecode` supplies the empty value type).  Non-negative periods are needed only for the
+period rule of the merged header, not for any statement below. -/
+
+/-- Every parser result is well typed in the sense of C03 and carries a period type. -/
+theorem parse_ok_typed (b : Bytes) (p : Profile) (h : Codec.parseUncompressed b = .ok p) :
+    Merge.Typed p ∧ p.periodType.isSome = true :=
+  ⟨Codec.parseUncompressed_typed b p h, Codec.parseUncompressed_periodType_isSome b p h⟩
+
+/-- **A parser result can be Compacted and stays valid**: `Compact` returns a profile — no panic,
+the re-merge recursion terminates — that is valid, well typed and has the same weight for every
+stack (C03's `compact_conserves` — through its lemma-level twin `Merge.compact_spec` — with all
+its hypotheses discharged). -/
+theorem parse_ok_compact_valid (b : Bytes) (p : Profile) (h : parseData b = .ok p) :
+    ∃ c, Merge.compact p = .ok c ∧ c.Valid ∧ Merge.Typed c ∧ ∀ k, Spec.weight c k = Spec.weight p k := by
+  obtain ⟨hp, hv⟩ := (parseData_ok_iff b p).mp h
+  exact Merge.compact_spec p hv (parse_ok_typed b p hp).1
+
+/-- the name DESIGN gives the statement for arbitrary valid profiles: `Compact` of a valid,
+well-typed profile neither panics nor leaves validity. -/
+theorem valid_compact_no_panic_valid (p : Profile) (hv : p.Valid) (ht : Merge.Typed p) :
+    (∀ s, Merge.compact p ≠ .panic s) ∧ ∃ c, Merge.compact p = .ok c ∧ c.Valid := by
+  obtain ⟨c, hc, hcv, _⟩ := Merge.compact_spec p hv ht
+  refine ⟨?_, c, hc, hcv⟩
+  intro s hpan
+  rw [hc] at hpan
+  cases hpan
+
+/-- **`Merge` of parser results terminates** (never the model's fuel panic, never another panic):
+for any accepted inputs that are compatible with the first (same sample types and period type)
+`Merge` returns a valid profile whose weight function is the sum of the inputs'. -/
+theorem merge_terminates (b : Bytes) (bs : List Bytes) (first : Profile) (rest : List Profile)
+    (hf : parseData b = .ok first)
+    (hr : List.Forall₂ (fun b p => parseData b = .ok p) bs rest)
+    (hc : ∀ p ∈ rest, Spec.compatibleB first p = true) :
+    (∀ site, Merge.merge (first :: rest) ≠ .panic site) ∧
+    ∃ r, Merge.merge (first :: rest) = .ok r ∧ r.Valid ∧
+      ∀ k, Spec.weight r k = Spec.mergedWeight (first :: rest) k := by
+  have hall : ∀ p ∈ first :: rest, p.Valid ∧ Merge.Typed p := by
+    intro p hp
+    rcases List.mem_cons.mp hp with rfl | hp
+    · obtain ⟨h1, h2⟩ := (parseData_ok_iff b p).mp hf
+      exact ⟨h2, (parse_ok_typed b p h1).1⟩
+    · obtain ⟨b', _, hb'⟩ := Merge.forall₂_mem_right hr hp
+      obtain ⟨h1, h2⟩ := (parseData_ok_iff b' p).mp hb'
+      exact ⟨h2, (parse_ok_typed b' p h1).1⟩
+  have hv : ∀ p ∈ first :: rest, p.Valid := fun p hp => (hall p hp).1
+  have ht : ∀ p ∈ first :: rest, Merge.Typed p := fun p hp => (hall p hp).2
+  obtain ⟨r, hr, hrv, _, _, _, hw, _⟩ := Merge.merge_spec first rest ⟨hv, ht, hc⟩
+  refine ⟨?_, r, hr, hrv, hw⟩
+  intro site hpan
+  rw [hr] at hpan
+  cases hpan
+
+-- non-vacuity: the example result is compatible with itself (period type present, same sample
+-- types), so merging it with itself is an instance
+example : parseData exampleBytes = .ok exampleParsed ∧ Spec.compatibleB exampleParsed exampleParsed = true := by
+  constructor <;> decide
 
 end PV.Props.C02
